@@ -328,6 +328,18 @@ def check_ranges(
                 raise ValueError("Value of target fit range is wrong")
 
 
+def _slice_length(data: slice, size: int) -> int:
+    """Get the number of elements selected by a slice on an axis with 'size' elements."""
+    return len(range(*data.indices(size)))
+
+
+def _is_slice_within(data: slice, size: int) -> bool:
+    """Check that 'start' and 'stop' are valid positions on an axis with 'size' elements."""
+    return all(
+        value is None or -size <= value <= size for value in (data.start, data.stop)
+    )
+
+
 @dataclass(frozen=True)
 class FitRange2D:
     """Represent a 2D range or slice with a row range and a column range.
@@ -373,10 +385,10 @@ class FitRange2D:
         return self.row, self.col
 
     def check(self, rows: int, cols: int):
-        if not self.row.stop <= rows:
+        if not _is_slice_within(self.row, size=rows):
             raise ValueError("Value of target fit range is wrong")
 
-        if not self.col.stop <= cols:
+        if not _is_slice_within(self.col, size=cols):
             raise ValueError("Value of target fit range is wrong")
 
 
@@ -437,16 +449,16 @@ class FitRange3D:
         return self.time, self.row, self.col
 
     def check(self, rows: int, cols: int, readout_times: int | None = None):
-        if not self.row.stop <= rows:
+        if not _is_slice_within(self.row, size=rows):
             raise ValueError("Value of target fit range is wrong")
 
-        if not self.col.stop <= cols:
+        if not _is_slice_within(self.col, size=cols):
             raise ValueError("Value of target fit range is wrong")
 
         if readout_times is None:
             raise ValueError("Target data is not a 3 dimensional array")
 
-        if not self.time.stop <= readout_times:
+        if not _is_slice_within(self.time, size=readout_times):
             raise ValueError("Value of target fit range is wrong")
 
 
@@ -469,20 +481,33 @@ def to_fit_range(
 def _check_out_fit_ranges(
     target_fit_range: FitRange2D | FitRange3D,
     out_fit_range: FitRange2D | FitRange3D,
+    rows: int,
+    cols: int,
+    readout_times: int | None,
+    out_rows: int,
+    out_cols: int,
+    out_readout_times: int,
 ):
-    if (
-        isinstance(target_fit_range, FitRange3D)
-        and isinstance(out_fit_range, FitRange3D)
-        and target_fit_range.time.stop != out_fit_range.time.stop
+    # A target or a result without a range in time is taken as a whole
+    target_time: slice = getattr(target_fit_range, "time", slice(None))
+    out_time: slice = getattr(out_fit_range, "time", slice(None))
+    num_times: int = 1 if readout_times is None else readout_times
+
+    if _slice_length(target_time, size=num_times) != _slice_length(
+        out_time, size=out_readout_times
     ):
         raise ValueError(
             "Fitting ranges have different lengths in dimension 'readout time'"
         )
 
-    if target_fit_range.row.stop != out_fit_range.row.stop:
+    if _slice_length(target_fit_range.row, size=rows) != _slice_length(
+        out_fit_range.row, size=out_rows
+    ):
         raise ValueError("Fitting ranges have different lengths in dimension 'y'")
 
-    if target_fit_range.col.stop != out_fit_range.col.stop:
+    if _slice_length(target_fit_range.col, size=cols) != _slice_length(
+        out_fit_range.col, size=out_cols
+    ):
         raise ValueError("Fitting ranges have different lengths in dimension 'x'")
 
 
@@ -493,11 +518,14 @@ def check_fit_ranges(
     rows: int,
     cols: int,
     readout_times: int | None = None,
+    out_rows: int | None = None,
+    out_cols: int | None = None,
+    out_readout_times: int | None = None,
 ) -> None:
     """Check if ``target_fit_range`` and ``out_fit_range`` are valid.
 
     This functions checks if ``target_fit_range`` is valid for the specified ``rows`` and ``columns``
-    and if ``out_fit_range`` is compatible with ``target_fit_range``.
+    and if ``out_fit_range`` selects as many elements as ``target_fit_range`` in each dimension.
 
     Parameters
     ----------
@@ -506,12 +534,18 @@ def check_fit_ranges(
     out_fit_range : FitRange2D, FitRange3D. Optional
         An output range to check whether it's compatible with the target fit range.
     rows : int
-        Number of rows.
+        Number of rows of the target.
     cols : int
-        Number of columns
+        Number of columns of the target.
     readout_times : int, Optional
-        Number of readout times. This parameter is only used if the target fit range is
-        a 3D range.
+        Number of readout times of the target. This parameter is only used if the target is
+        a 3D array.
+    out_rows : int, Optional
+        Number of rows of the simulated output. By default, same as the target.
+    out_cols : int, Optional
+        Number of columns of the simulated output. By default, same as the target.
+    out_readout_times : int, Optional
+        Number of readout times of the simulated output. By default, same as the target.
 
     Raises
     ------
@@ -523,7 +557,18 @@ def check_fit_ranges(
 
     if out_fit_range:
         _check_out_fit_ranges(
-            target_fit_range=target_fit_range, out_fit_range=out_fit_range
+            target_fit_range=target_fit_range,
+            out_fit_range=out_fit_range,
+            rows=rows,
+            cols=cols,
+            readout_times=readout_times,
+            out_rows=rows if out_rows is None else out_rows,
+            out_cols=cols if out_cols is None else out_cols,
+            out_readout_times=(
+                (1 if readout_times is None else readout_times)
+                if out_readout_times is None
+                else out_readout_times
+            ),
         )
 
     if isinstance(target_fit_range, FitRange2D):
